@@ -11,8 +11,8 @@
  *   event_assign/event_add/event_del/event_initialized
  *        the struct event is the library's; assign stores callback/arg/fd/events
  *        and marks EVLIST_INIT; add marks EVLIST_INSERTED (fd events) or
- *        EVLIST_TIMEOUT (tv != NULL or no fd events) and stores the timeout in
- *        ev_timeout; del clears both.  Never fails unless vpe_event_add_fail is set.
+ *        EVLIST_TIMEOUT (tv != NULL or no fd events) and records the timeout beside
+ *        the event (vpe_timeout_of); del clears both.  Never fails unless vpe_event_add_fail is set.
  *        add/del of an event that was never assigned is an assertion failure.
  *   event_deferred_cb_init_/schedule_
  *        records the callback; vpe_run_deferred() runs every scheduled one once
@@ -159,6 +159,24 @@ int event_assign(struct event *ev, struct event_base *base, evutil_socket_t fd, 
 	return 0;
 }
 int event_initialized(const struct event *ev) { return (ev->ev_evcallback.evcb_flags & EVLIST_INIT) != 0; }
+/* timeouts are kept beside the events: a solver-chosen timeval stored INTO a struct event (unions inside) makes cbmc
+ * treat the whole enclosing library object byte-wise, after which its pointer fields are no constants for symex */
+#ifndef VPE_NTIMEOUTS
+#define VPE_NTIMEOUTS 8
+#endif
+static const struct event *vpe_tv_ev[VPE_NTIMEOUTS]; static struct timeval vpe_tv_val[VPE_NTIMEOUTS];
+static void vpe_timeout_set(const struct event *ev, const struct timeval *tv)
+{
+	int i, done = 0;
+	for (i = 0; i < VPE_NTIMEOUTS; i++) if (!done && (vpe_tv_ev[i] == ev || vpe_tv_ev[i] == NULL)) { vpe_tv_ev[i] = ev; vpe_tv_val[i] = *tv; done = 1; }
+	VP_ASSERT(done, "harness: timeout table full");
+}
+static const struct timeval *vpe_timeout_of(const struct event *ev)
+{
+	int i;
+	for (i = 0; i < VPE_NTIMEOUTS; i++) if (vpe_tv_ev[i] == ev) return &vpe_tv_val[i];
+	return NULL;
+}
 int event_add(struct event *ev, const struct timeval *tv)
 {
 	VP_ASSERT(ev->ev_evcallback.evcb_flags & EVLIST_INIT, "event_add() on an event that is not assigned (or was freed)");
@@ -166,7 +184,7 @@ int event_add(struct event *ev, const struct timeval *tv)
 	if (vpe_event_add_fail) return -1;
 	if (!(ev->ev_evcallback.evcb_flags & (EVLIST_INSERTED | EVLIST_TIMEOUT))) vpe_pending_events++;
 	if (ev->ev_events & (EV_READ | EV_WRITE | EV_SIGNAL | EV_CLOSED)) ev->ev_evcallback.evcb_flags |= EVLIST_INSERTED;
-	if (tv) { ev->ev_evcallback.evcb_flags |= EVLIST_TIMEOUT; ev->ev_timeout = *tv; }
+	if (tv) { ev->ev_evcallback.evcb_flags |= EVLIST_TIMEOUT; vpe_timeout_set(ev, tv); }
 	else if (!(ev->ev_events & (EV_READ | EV_WRITE | EV_SIGNAL | EV_CLOSED))) ev->ev_evcallback.evcb_flags |= EVLIST_TIMEOUT;
 	return 0;
 }
